@@ -73,17 +73,17 @@ Qed.
 Lemma scan_rows_fst : forall r site rows b off idx acc,
   fst (scan_rows r site rows b off idx acc) = N.lor acc (row_select (concat rows) b idx).
 Proof.
-  induction rows as [|row rest IH]; intros b off idx acc; simpl.
-  - symmetry. apply N.lor_0_r.
+  induction rows as [|row rest IH]; intros b off idx acc; cbn [scan_rows concat].
+  - cbn [row_select]. rewrite fst_ret. symmetry. apply N.lor_0_r.
   - rewrite ?fst_bind. rewrite IH. rewrite row_select_app. rewrite N.lor_assoc. reflexivity.
 Qed.
 
 Lemma scan_rows_snd : forall r site rows b off idx acc,
   snd (scan_rows r site rows b off idx acc) = scan_trace r site (length rows) off.
 Proof.
-  induction rows as [|row rest IH]; intros b off idx acc; simpl.
+  induction rows as [|row rest IH]; intros b off idx acc; cbn [scan_rows scan_trace length].
   - reflexivity.
-  - rewrite ?snd_bind. simpl. rewrite IH. reflexivity.
+  - rewrite ?snd_bind, snd_emits, IH. reflexivity.
 Qed.
 
 (* lookup_scan_correct: for EVERY table (any rows) and EVERY index inside it the scan
@@ -463,4 +463,348 @@ Proof. induction sh; intros; simpl; [reflexivity | rewrite IHsh; reflexivity]. Q
 Lemma des_key_schedule_std_length : forall key, length (des_key_schedule_std key) = 16%nat.
 Proof.
   intros. unfold des_key_schedule_std, des_key_schedule_N. rewrite des_ks_rounds_length. reflexivity.
+Qed.
+
+(* ------------------------------------------------------------------------- *)
+(** * KASUMI                                                                  *)
+(* ------------------------------------------------------------------------- *)
+Ltac leak_fst := repeat (rewrite ?fst_bind, ?fst_ret; cbv beta zeta).
+
+Lemma nth_repeat0 : forall n m, nth n (repeat 0 m) 0 = 0.
+Proof. induction n; destruct m; simpl; auto. Qed.
+
+Lemma kasumi_S7_length : length kasumi_S7 = 128%nat.
+Proof. vm_compute. reflexivity. Qed.
+Lemma kasumi_S9_length : length kasumi_S9 = 512%nat.
+Proof. vm_compute. reflexivity. Qed.
+Lemma kasumi_S7_rows_concat : concat kasumi_S7_rows = kasumi_S7 ++ repeat 0 128.
+Proof.
+  unfold kasumi_S7_rows. apply concat_rows_of.
+  rewrite app_length, repeat_length, kasumi_S7_length. reflexivity.
+Qed.
+Lemma kasumi_S9_rows_concat : concat kasumi_S9_rows = kasumi_S9.
+Proof. unfold kasumi_S9_rows. apply concat_rows_of. rewrite kasumi_S9_length. reflexivity. Qed.
+
+Arguments kasumi_S7_rows : simpl never.
+Arguments kasumi_S9_rows : simpl never.
+
+(* for EVERY x (outside the tables both sides are 0) *)
+Lemma S7_leak_fst : forall x, fst (S7_leak x) = S7 x.
+Proof.
+  intros. unfold S7_leak, S7. rewrite scan_correct, kasumi_S7_rows_concat.
+  destruct (Nat.ltb_spec (N.to_nat x) 128) as [H|H].
+  - apply app_nth1. rewrite kasumi_S7_length. exact H.
+  - rewrite app_nth2 by (rewrite kasumi_S7_length; exact H).
+    rewrite nth_repeat0. symmetry. apply nth_overflow. rewrite kasumi_S7_length. exact H.
+Qed.
+Lemma S9_leak_fst : forall x, fst (S9_leak x) = S9 x.
+Proof. intros. unfold S9_leak, S9. rewrite scan_correct, kasumi_S9_rows_concat. reflexivity. Qed.
+Lemma S7_leak_snd : forall x, snd (S7_leak x) = S7_trace.
+Proof. intros. unfold S7_leak. rewrite scan_snd. unfold kasumi_S7_rows. rewrite rows_of_length. reflexivity. Qed.
+Lemma S9_leak_snd : forall x, snd (S9_leak x) = S9_trace.
+Proof. intros. unfold S9_leak. rewrite scan_snd. unfold kasumi_S9_rows. rewrite rows_of_length. reflexivity. Qed.
+#[export] Hint Rewrite S7_leak_snd S9_leak_snd : leak.
+
+Lemma kasumi_FI_leak_fst : forall x ki, fst (kasumi_FI_leak x ki) = kasumi_FI x ki.
+Proof.
+  intros. unfold kasumi_FI_leak, kasumi_FI. leak_fst.
+  rewrite !S7_leak_fst, !S9_leak_fst. reflexivity.
+Qed.
+Lemma kasumi_FI_leak_snd : forall x ki, snd (kasumi_FI_leak x ki) = kasumi_FI_trace.
+Proof. intros. unfold kasumi_FI_leak, kasumi_FI_trace. cbv zeta. autorewrite with leak. reflexivity. Qed.
+#[export] Hint Rewrite kasumi_FI_leak_snd : leak.
+
+Lemma ks_ld_snd : forall kr i, snd (ks_ld kr i) = ks_ld_trace kr i.
+Proof. reflexivity. Qed.
+#[export] Hint Rewrite ks_ld_snd : leak.
+
+Lemma kasumi_FL_leak_fst : forall kr sk base x,
+  fst (kasumi_FL_leak kr sk base x) = kasumi_FL x (kk sk base) (kk sk (base + 1)).
+Proof. intros. unfold kasumi_FL_leak. leak_fst. reflexivity. Qed.
+Lemma kasumi_FL_leak_snd : forall kr sk base x,
+  snd (kasumi_FL_leak kr sk base x) = kasumi_FL_trace kr base.
+Proof. intros. unfold kasumi_FL_leak, kasumi_FL_trace. autorewrite with leak. reflexivity. Qed.
+Lemma kasumi_FO_leak_fst : forall kr sk base x,
+  fst (kasumi_FO_leak kr sk base x) =
+  kasumi_FO x (kk sk (base + 2)) (kk sk (base + 3)) (kk sk (base + 4)) (kk sk (base + 5))
+              (kk sk (base + 6)) (kk sk (base + 7)).
+Proof.
+  intros. unfold kasumi_FO_leak, kasumi_FO. leak_fst. rewrite !kasumi_FI_leak_fst. reflexivity.
+Qed.
+Lemma kasumi_FO_leak_snd : forall kr sk base x,
+  snd (kasumi_FO_leak kr sk base x) = kasumi_FO_trace kr base.
+Proof.
+  intros. unfold kasumi_FO_leak, kasumi_FO_trace. cbv zeta. autorewrite with leak.
+  rewrite <- ?app_assoc. reflexivity.
+Qed.
+#[export] Hint Rewrite kasumi_FL_leak_snd kasumi_FO_leak_snd : leak.
+
+Lemma kasumi_rounds_leak_snd : forall kr sk n base l r,
+  snd (kasumi_rounds_leak kr sk n base l r) = kasumi_rounds_trace kr n base.
+Proof.
+  induction n as [|n IH]; intros base l r; cbn [kasumi_rounds_leak kasumi_rounds_trace].
+  - reflexivity.
+  - cbv zeta. autorewrite with leak. rewrite IH. rewrite <- ?app_assoc. reflexivity.
+Qed.
+Lemma kasumi_enc_leak_snd : forall kr sk x, snd (kasumi_enc_leak kr sk x) = kasumi_enc_trace kr.
+Proof.
+  intros. unfold kasumi_enc_leak, kasumi_enc_trace. autorewrite with leak.
+  apply kasumi_rounds_leak_snd.
+Qed.
+#[export] Hint Rewrite kasumi_enc_leak_snd : leak.
+
+(* one step of the Spec's round loop on a schedule that starts with 16 words *)
+Lemma kasumi_rounds_leak_fst : forall kr n pre sk l r,
+  length sk = (16 * n)%nat ->
+  fst (kasumi_rounds_leak kr (pre ++ sk) n (length pre) l r) = kasumi_rounds n sk l r.
+Proof.
+  induction n as [|n IH]; intros pre sk l r Hlen; cbn [kasumi_rounds_leak kasumi_rounds].
+  - reflexivity.
+  - do 16 (destruct sk as [|? sk]; [discriminate Hlen|]).
+    leak_fst. rewrite !kasumi_FL_leak_fst, !kasumi_FO_leak_fst.
+    unfold kk. rewrite !app_nth2 by lia.
+    replace (length pre + 8 + 1 - length pre)%nat with 9%nat by lia.
+    replace (length pre + 8 + 2 - length pre)%nat with 10%nat by lia.
+    replace (length pre + 8 + 3 - length pre)%nat with 11%nat by lia.
+    replace (length pre + 8 + 4 - length pre)%nat with 12%nat by lia.
+    replace (length pre + 8 + 5 - length pre)%nat with 13%nat by lia.
+    replace (length pre + 8 + 6 - length pre)%nat with 14%nat by lia.
+    replace (length pre + 8 + 7 - length pre)%nat with 15%nat by lia.
+    replace (length pre + 8 - length pre)%nat with 8%nat by lia.
+    replace (length pre + 1 - length pre)%nat with 1%nat by lia.
+    replace (length pre + 2 - length pre)%nat with 2%nat by lia.
+    replace (length pre + 3 - length pre)%nat with 3%nat by lia.
+    replace (length pre + 4 - length pre)%nat with 4%nat by lia.
+    replace (length pre + 5 - length pre)%nat with 5%nat by lia.
+    replace (length pre + 6 - length pre)%nat with 6%nat by lia.
+    replace (length pre + 7 - length pre)%nat with 7%nat by lia.
+    replace (length pre - length pre)%nat with 0%nat by lia.
+    cbn [nth firstn skipn kasumi_f_odd kasumi_f_even].
+    match goal with
+    | |- context [kasumi_rounds_leak kr (pre ++ ?a0 :: ?a1 :: ?a2 :: ?a3 :: ?a4 :: ?a5 :: ?a6 :: ?a7 ::
+                                          ?a8 :: ?a9 :: ?a10 :: ?a11 :: ?a12 :: ?a13 :: ?a14 :: ?a15 :: sk)
+                                      n (length pre + 16)] =>
+        replace (pre ++ a0 :: a1 :: a2 :: a3 :: a4 :: a5 :: a6 :: a7 ::
+                 a8 :: a9 :: a10 :: a11 :: a12 :: a13 :: a14 :: a15 :: sk)
+          with ((pre ++ [a0; a1; a2; a3; a4; a5; a6; a7; a8; a9; a10; a11; a12; a13; a14; a15]) ++ sk)
+          by (rewrite <- app_assoc; reflexivity);
+        replace (length pre + 16)%nat
+          with (length (pre ++ [a0; a1; a2; a3; a4; a5; a6; a7; a8; a9; a10; a11; a12; a13; a14; a15]))
+          by (rewrite app_length; reflexivity)
+    end.
+    rewrite IH by (simpl in Hlen; lia). reflexivity.
+Qed.
+
+Lemma kasumi_enc_leak_fst : forall kr sk x, length sk = 64%nat ->
+  fst (kasumi_enc_leak kr sk x) = kasumi_enc_w sk x.
+Proof.
+  intros kr sk x H. unfold kasumi_enc_leak, kasumi_enc_w. leak_fst.
+  change (kasumi_rounds_leak kr sk 4 0) with (kasumi_rounds_leak kr ([] ++ sk) 4 (length (@nil N))).
+  rewrite kasumi_rounds_leak_fst by exact H.
+  destruct (kasumi_rounds 4 sk (w32 (N.shiftr x 32)) (w32 x)). reflexivity.
+Qed.
+
+(** ** f8 / f9 *)
+Lemma kasumi_f8_ks_leak_fst : forall dt n i sk a prev cnt, length sk = 64%nat ->
+  fst (kasumi_f8_ks_leak dt i n sk a prev cnt) = kasumi_f8_ks_loop n sk a prev cnt.
+Proof.
+  induction n as [|n IH]; intros i sk a prev cnt H; cbn [kasumi_f8_ks_leak kasumi_f8_ks_loop].
+  - reflexivity.
+  - leak_fst. rewrite kasumi_enc_leak_fst by exact H. rewrite IH by exact H. reflexivity.
+Qed.
+Lemma kasumi_f8_ks_leak_snd : forall dt n i sk a prev cnt,
+  snd (kasumi_f8_ks_leak dt i n sk a prev cnt) = kasumi_f8_ks_trace dt i n.
+Proof.
+  induction n as [|n IH]; intros i sk a prev cnt; cbn [kasumi_f8_ks_leak kasumi_f8_ks_trace].
+  - reflexivity.
+  - autorewrite with leak. rewrite IH. reflexivity.
+Qed.
+
+Theorem kasumi_f8_leak_fst : forall inplace sk msk iv src dst bitlen bitoff,
+  length sk = 64%nat -> length msk = 64%nat ->
+  fst (kasumi_f8_leak inplace sk msk iv src dst bitlen bitoff) = kasumi_f8_sk sk msk iv src dst bitlen bitoff.
+Proof.
+  intros. unfold kasumi_f8_leak, kasumi_f8_sk. leak_fst.
+  rewrite kasumi_enc_leak_fst by assumption. rewrite kasumi_f8_ks_leak_fst by assumption. reflexivity.
+Qed.
+Theorem kasumi_f8_leak_snd : forall inplace sk msk iv src dst bitlen bitoff,
+  snd (kasumi_f8_leak inplace sk msk iv src dst bitlen bitoff) = kasumi_f8_trace inplace bitlen bitoff.
+Proof.
+  intros. unfold kasumi_f8_leak, kasumi_f8_trace. autorewrite with leak.
+  rewrite kasumi_f8_ks_leak_snd. reflexivity.
+Qed.
+
+Lemma kasumi_key_schedule_length : forall key, length (kasumi_key_schedule key) = 64%nat.
+Proof.
+  intros. unfold kasumi_key_schedule.
+  change (upto 8) with [0%nat; 1%nat; 2%nat; 3%nat; 4%nat; 5%nat; 6%nat; 7%nat].
+  cbn [flat_map]. rewrite !app_length. reflexivity.
+Qed.
+
+(* the schedule-parametric job is the Spec job *)
+Lemma kasumi_f8_sk_spec : forall key iv src dst bitlen bitoff,
+  kasumi_f8_sk (kasumi_key_schedule key) (kasumi_key_schedule (kasumi_mod_key 0x55 key))
+               iv src dst bitlen bitoff = kasumi_f8_job key iv src dst bitlen bitoff.
+Proof.
+  intros. unfold kasumi_f8_sk, kasumi_f8_job, kasumi_f8_post, kasumi_f8_nblocks,
+    kasumi_f8_keystream, kasumi_f8_keystream_w, kasumi_f8_key_sched. cbv zeta.
+  destruct ((N.land bitlen 7 =? 0) && (N.land bitoff 7 =? 0))%bool; reflexivity.
+Qed.
+
+Corollary kasumi_f8_leak_spec : forall inplace key iv src dst bitlen bitoff,
+  fst (kasumi_f8_leak inplace (kasumi_key_schedule key) (kasumi_key_schedule (kasumi_mod_key 0x55 key))
+                      iv src dst bitlen bitoff) = kasumi_f8_job key iv src dst bitlen bitoff.
+Proof.
+  intros. rewrite kasumi_f8_leak_fst by apply kasumi_key_schedule_length. apply kasumi_f8_sk_spec.
+Qed.
+
+Lemma kasumi_f9_loop_leak_fst : forall sk blocks i lens a b, length sk = 64%nat ->
+  fst (kasumi_f9_loop_leak sk i lens blocks a b) = kasumi_f9_loop sk blocks a b.
+Proof.
+  induction blocks as [|p t IH]; intros i lens a b H; cbn [kasumi_f9_loop_leak kasumi_f9_loop].
+  - reflexivity.
+  - leak_fst. rewrite kasumi_enc_leak_fst by exact H.
+    destruct (Nat.eqb (hd 0%nat lens) 8).
+    + apply IH. exact H.
+    + reflexivity.
+Qed.
+Lemma kasumi_f9_loop_leak_snd : forall sk (f : bytes -> N) cs i a b,
+  snd (kasumi_f9_loop_leak sk i (map (@length N) cs) (map f cs) a b) =
+  kasumi_f9_loop_trace i (map (@length N) cs).
+Proof.
+  induction cs as [|c t IH]; intros i a b; cbn [map kasumi_f9_loop_leak kasumi_f9_loop_trace hd tl].
+  - reflexivity.
+  - cbv zeta. destruct (Nat.eqb (length c) 8); autorewrite with leak.
+    + rewrite IH. reflexivity.
+    + reflexivity.
+Qed.
+
+Theorem kasumi_f9_leak_fst : forall sk msk msg, length sk = 64%nat -> length msk = 64%nat ->
+  fst (kasumi_f9_leak sk msk msg) = kasumi_f9_sk sk msk msg.
+Proof.
+  intros. unfold kasumi_f9_leak, kasumi_f9_sk. leak_fst.
+  rewrite kasumi_f9_loop_leak_fst by assumption. rewrite kasumi_enc_leak_fst by assumption. reflexivity.
+Qed.
+Theorem kasumi_f9_leak_snd : forall sk msk msg,
+  snd (kasumi_f9_leak sk msk msg) = kasumi_f9_trace (length msg).
+Proof.
+  intros. unfold kasumi_f9_leak, kasumi_f9_trace. cbv zeta. autorewrite with leak.
+  rewrite kasumi_f9_loop_leak_snd, chunks_lens. reflexivity.
+Qed.
+Lemma kasumi_f9_sk_spec : forall key msg,
+  kasumi_f9_sk (kasumi_key_schedule key) (kasumi_key_schedule (kasumi_mod_key 0xAA key)) msg =
+  kasumi_f9 key msg.
+Proof. intros. reflexivity. Qed.
+Corollary kasumi_f9_leak_spec : forall key msg,
+  fst (kasumi_f9_leak (kasumi_key_schedule key) (kasumi_key_schedule (kasumi_mod_key 0xAA key)) msg) =
+  kasumi_f9 key msg.
+Proof.
+  intros. rewrite kasumi_f9_leak_fst by apply kasumi_key_schedule_length. apply kasumi_f9_sk_spec.
+Qed.
+
+(* ------------------------------------------------------------------------- *)
+(** * SNOW3G                                                                  *)
+(* ------------------------------------------------------------------------- *)
+(* The Spec looks its byte tables up through binary trees; for EVERY index (also >= 256: the
+   tree ignores the bits above bit 7) the result is the table entry of the low 8 bits.
+   Complete case analysis on the 8 low bits of the index (3^8 shapes of a positive). *)
+Lemma bt_lookup_SQ : forall i,
+  snow3g_bt_lookup snow3g_SQ_tree i = nth (N.to_nat (N.land i 255)) snow3g_SQ 0.
+Proof.
+  destruct i as [|p]; [reflexivity|].
+  do 8 (destruct p as [p|p|]; [| |vm_compute; reflexivity]).
+  all: vm_compute; reflexivity.
+Qed.
+Lemma bt_lookup_MULa : forall i,
+  snow3g_bt_lookup snow3g_MULa_tree i = nth (N.to_nat (N.land i 255)) snow3g_MULa_tab 0.
+Proof.
+  destruct i as [|p]; [reflexivity|].
+  do 8 (destruct p as [p|p|]; [| |vm_compute; reflexivity]).
+  all: vm_compute; reflexivity.
+Qed.
+Lemma bt_lookup_DIVa : forall i,
+  snow3g_bt_lookup snow3g_DIVa_tree i = nth (N.to_nat (N.land i 255)) snow3g_DIVa_tab 0.
+Proof.
+  destruct i as [|p]; [reflexivity|].
+  do 8 (destruct p as [p|p|]; [| |vm_compute; reflexivity]).
+  all: vm_compute; reflexivity.
+Qed.
+
+Lemma forall_lt_256 : forall P : N -> bool,
+  forallb P (map N.of_nat (seq 0 256)) = true -> forall c, c < 256 -> P c = true.
+Proof.
+  intros P H c Hc. rewrite forallb_forall in H. apply H.
+  apply in_map_iff. exists (N.to_nat c). split; [apply N2Nat.id|].
+  apply in_seq. lia.
+Qed.
+Lemma w8_lt : forall x, w8 x < 256.
+Proof.
+  intros. unfold w8, mask8. change 255 with (N.ones 8). rewrite N.land_ones.
+  apply N.mod_lt. discriminate.
+Qed.
+Lemma w8_w8 : forall x, N.land (w8 x) 255 = w8 x.
+Proof. intros. unfold w8, mask8. rewrite <- N.land_assoc, N.land_diag. reflexivity. Qed.
+
+(* the nibble decomposition of the (linear) alpha tables: all 256 bytes checked *)
+Lemma nib_lookup_MULa : forall c, c < 256 ->
+  nib_lookup snow3g_MULa_tab c = nth (N.to_nat c) snow3g_MULa_tab 0.
+Proof.
+  intros c Hc.
+  apply N.eqb_eq.
+  apply (forall_lt_256 (fun c => nib_lookup snow3g_MULa_tab c =? nth (N.to_nat c) snow3g_MULa_tab 0));
+    [vm_compute; reflexivity | exact Hc].
+Qed.
+Lemma nib_lookup_DIVa : forall c, c < 256 ->
+  nib_lookup snow3g_DIVa_tab c = nth (N.to_nat c) snow3g_DIVa_tab 0.
+Proof.
+  intros c Hc.
+  apply N.eqb_eq.
+  apply (forall_lt_256 (fun c => nib_lookup snow3g_DIVa_tab c =? nth (N.to_nat c) snow3g_DIVa_tab 0));
+    [vm_compute; reflexivity | exact Hc].
+Qed.
+
+Lemma snow3g_SQ_rows_concat : concat snow3g_SQ_rows = snow3g_SQ.
+Proof. unfold snow3g_SQ_rows. apply concat_rows_of. vm_compute. reflexivity. Qed.
+Arguments snow3g_SQ_rows : simpl never.
+
+Lemma snow3g_S2_leak_fst : forall w, fst (snow3g_S2_leak w) = snow3g_S2 w.
+Proof.
+  intros. unfold snow3g_S2_leak, snow3g_S2, snow3g_sbox32. leak_fst.
+  rewrite scan_vec_fst, snow3g_SQ_rows_concat. cbn [map nth].
+  rewrite !bt_lookup_SQ, !w8_w8. reflexivity.
+Qed.
+Lemma snow3g_S2_leak_snd : forall w, snd (snow3g_S2_leak w) = scan_trace R_snow3g_S2 SITE_UNROLLED 16 0.
+Proof.
+  intros. unfold snow3g_S2_leak. autorewrite with leak. unfold snow3g_SQ_rows.
+  rewrite rows_of_length. reflexivity.
+Qed.
+Lemma snow3g_mula_leak_fst : forall c,
+  fst (snow3g_mula_leak c) = snow3g_bt_lookup snow3g_MULa_tree c.
+Proof.
+  intros. unfold snow3g_mula_leak. leak_fst.
+  rewrite nib_lookup_MULa by apply w8_lt. rewrite bt_lookup_MULa. reflexivity.
+Qed.
+Lemma snow3g_diva_leak_fst : forall c,
+  fst (snow3g_diva_leak c) = snow3g_bt_lookup snow3g_DIVa_tree c.
+Proof.
+  intros. unfold snow3g_diva_leak. leak_fst.
+  rewrite nib_lookup_DIVa by apply w8_lt. rewrite bt_lookup_DIVa. reflexivity.
+Qed.
+Lemma snow3g_mula_leak_snd : forall c, snd (snow3g_mula_leak c) = alpha_trace R_snow3g_mula.
+Proof. intros. unfold snow3g_mula_leak. autorewrite with leak. reflexivity. Qed.
+Lemma snow3g_diva_leak_snd : forall c, snd (snow3g_diva_leak c) = alpha_trace R_snow3g_diva.
+Proof. intros. unfold snow3g_diva_leak. autorewrite with leak. reflexivity. Qed.
+#[export] Hint Rewrite snow3g_S2_leak_snd snow3g_mula_leak_snd snow3g_diva_leak_snd : leak.
+
+Lemma bt_lookup_DIVa_w8 : forall x,
+  snow3g_bt_lookup snow3g_DIVa_tree (w8 x) = snow3g_bt_lookup snow3g_DIVa_tree x.
+Proof. intros. rewrite !bt_lookup_DIVa, w8_w8. reflexivity. Qed.
+
+Lemma snow3g_lfsr_step_leak_fst : forall s f,
+  fst (snow3g_lfsr_step_leak s f) = snow3g_lfsr_step s f.
+Proof.
+  intros. unfold snow3g_lfsr_step_leak, snow3g_lfsr_step. leak_fst.
+  rewrite snow3g_mula_leak_fst, snow3g_diva_leak_fst.
+  do 17 (destruct s as [|? s]; [reflexivity|]).
+  - reflexivity.
 Qed.
